@@ -24,7 +24,7 @@ RELS = ["same", "order", "other", "single"]
 
 
 def cases(tier, seed):
-    n = 48 if tier == "quick" else 800
+    n = 48 if tier == "quick" else 2500
     rng = random.Random(seed + 600)
     cs = []
     for i in range(n):
